@@ -18,7 +18,8 @@ ASSUMPTIONS = [
 
 
 def gen(rng, tier, no, wide=False):
-    case = G.gen_case(rng, missing_rate=rng.choice([0.0, 0.1, 0.25, 0.4]), sync_rate=rng.choice([0.0, 0.1]))
+    case = G.gen_case(rng, missing_rate=rng.choice([0.0, 0.1, 0.25, 0.4]), sync_rate=rng.choice([0.0, 0.1, 0.2]),
+                      **({"two_threads": True, "nsteps": rng.choice([2, 3])} if rng.random() < 0.2 else {}))
     # Kineto-style GPU-side sync records on stream -1, paired with their host call by correlation
     for r, ev in case["ranks"].items():
         extra = []
@@ -32,6 +33,9 @@ def gen(rng, tier, no, wide=False):
                 elif rng.random() < 0.15:
                     del args["correlation"]      # a synchronisation record on stream -1 that carries no correlation id
                 lead = min(e["dur"], case["cfg"]["grid"] * rng.choice([0, 0, 1, 3]))     # the record may start after its host call
+                steps = [x["ts"] for x in ev if str(x.get("name", "")).startswith("ProfilerStep#")]
+                if steps and e["ts"] < max(steps) <= e["ts"] + e["dur"] and rng.random() < 0.7:
+                    lead = max(steps) - e["ts"]     # ... exactly when the last profiler step begins
                 extra.append({"ph": "X", "cat": "cuda_sync", "name": nm, "pid": r, "tid": 7 if nm == "Stream Sync" else 0,
                               "ts": e["ts"] + lead, "dur": e["dur"] - lead, "args": args})
         for x in extra:
